@@ -23,6 +23,10 @@ def main(tier):
     jobs = c02.lemma_jobs(N, exclude, only, heavyN=heavy, deep=deep, hexN=6 if tier == 'quick' else 8)
     rs, viol = ck.run('clean-up passes', jobs, bounds={'text_len': '0..%d over all printable ASCII (flag-group pass 0..%d), %d..%d over the representative alphabet' % (N, heavy, N + 1, N + deep)})
     ck.triage(viol)
+    # termination of definition expansion on cyclic / self-referential definitions: the unwinding obligations are the property
+    jobs = [('regex/parser.VerifC19ExpandTerminates', dict(params={'shape': sh}, unwind=8, hooks={'choice_strings': True}, timeout_ms=120000, terminal_obligations=(), unwind_is_violation=True)) for sh in range(4)]
+    rs, viol = ck.run('definition-expansion-terminates', jobs, bounds={'definition_shapes': ['self reference with growth', 'two-cycle', 'pure self reference', 'chain'], 'unwind': 8})
+    ck.triage(viol)
     sj, sb = c02.shaped_jobs(tier, exclude, only)
     rs, viol = ck.run('flag-groups-shaped', sj, bounds=sb, job_timeout=420 if tier == 'quick' else 1500)
     ck.triage(viol)
